@@ -1,7 +1,6 @@
 package core
 
 import (
-	"errors"
 	"io"
 	"os"
 	"regexp"
@@ -41,16 +40,17 @@ type Keys struct {
 
 // WaitAvailableKeys waits until an input key is either read from standard input,
 // or directly returns if the key stack still/already has available keys.
-func WaitAvailableKeys(keys *Keys, cfg *inputrc.Config) {
+// An error is returned when standard input is closed or fails to be read.
+func WaitAvailableKeys(keys *Keys, cfg *inputrc.Config) error {
 	keys.cfg = cfg
 
 	if len(keys.buf) > 0 && !keys.mustWait {
-		return
+		return nil
 	}
 
 	// The macro engine might have fed some keys
 	if len(keys.macroKeys) > 0 {
-		return
+		return nil
 	}
 
 	keys.mutex.Lock()
@@ -69,8 +69,8 @@ func WaitAvailableKeys(keys *Keys, cfg *inputrc.Config) {
 		// We will either read keyBuf from user, or an EOF
 		// send by ourselves, because we pause reading.
 		keyBuf, err := keys.readInputFiltered()
-		if err != nil && errors.Is(err, io.EOF) {
-			return
+		if err != nil {
+			return err
 		}
 
 		if len(keyBuf) == 0 {
@@ -94,7 +94,7 @@ func WaitAvailableKeys(keys *Keys, cfg *inputrc.Config) {
 			keys.mutex.RUnlock()
 		}
 
-		return
+		return nil
 	}
 }
 
@@ -246,7 +246,17 @@ func (k *Keys) ReadKey() (key rune, isAbort bool) {
 		buf := <-k.keysOnce
 		key = []rune(string(buf))[0]
 	default:
-		buf, _ := k.readInputFiltered()
+		// Read until we get a key (a read might only hold a cursor position
+		// report), and consider a closed or failing input as an abort.
+		var buf []byte
+
+		for len(buf) == 0 {
+			var err error
+			if buf, err = k.readInputFiltered(); err != nil {
+				return 0, true
+			}
+		}
+
 		key = []rune(string(buf))[0]
 	}
 
